@@ -15,8 +15,10 @@ from pbt import jsongen as jg, methods as hm
 from pbt.runner import Check, Disc, Outcome
 
 PREFIXES = [None, 'a', 'a.b']
-FUNC_NAMES = ['f0', 'f1', 'f2', 'dup', 'dup', 'get']      # two functions share the __name__ 'dup'; one collides with a view method name
-EXPLICIT = ['x', 'f0', 'a.x', 'get', 'user.add', 'dup']
+# two functions share the __name__ 'dup'; one collides with a view method name; one has a leading underscore in its own name
+# (only VIEW members with a leading underscore are private - a function registered by the application is reachable under its name)
+FUNC_NAMES = ['f0', 'f1', 'f2', 'dup', 'dup', 'get', '_ping']
+EXPLICIT = ['x', 'f0', 'a.x', 'get', 'user.add', 'dup', '_x', 'a._y', '_private']
 
 
 def _make_functions():
